@@ -201,7 +201,8 @@ Nested ==
   \cup {<<E(op, <<El(1)>>), x>> : op \in {"Not", "IsNull"}, x \in Pool}
   \cup {<<E("And", <<El(1), El(1)>>), E("Or", <<El(2), Lit(FF)>>), x>> : x \in Pool}       \* shared sub-element, three levels
 NotChain(d) == [i \in 1..d |-> IF i < d THEN E("Not", <<El(i)>>) ELSE E("IsNull", <<Lit(Null)>>)]
-Chains == {NotChain(d) : d \in {2, 3, 40}}
+ChainDepths == {2, 3, 40}          \* thorough adds 1000, the longest element array the default decoding limits admit
+Chains == {NotChain(d) : d \in ChainDepths}
 
 \* malformed clauses that the server accepts at creation
 Malformed ==
